@@ -16,12 +16,19 @@ func slotRules(c *Check, v *valTerms, name string) {
 	emptyRets := returnsWhere(pg, func(s *PState) bool {
 		return retKey(s, 0) == "nil" && retHasType(s, 1, "ncg/revocation/result.InvalidChainError")
 	})
-	c.floor(name+" empty-chain returns", 1, len(emptyRets))
-	c.mustPass(pg, rule+".1", name+": empty chain is an invalid-chain error", "the InvalidChainError literal", emptyRets, empty)
-	nonInv := returnsWhere(pg, func(s *PState) bool {
-		return !(retKey(s, 0) == "nil" && retHasType(s, 1, "ncg/revocation/result.InvalidChainError"))
-	})
-	c.noPathFrom(pg, rule+".1", name+": empty chain yields nothing else", "after the chain was found empty only (nil, InvalidChainError) is returned", empty, nonInv, nil)
+	if len(edgeTargets(pg, empty)) > 0 {
+		c.floor(name+" empty-chain returns", 1, len(emptyRets))
+		c.mustPass(pg, rule+".1", name+": empty chain is an invalid-chain error", "the InvalidChainError literal", emptyRets, empty)
+		nonInv := returnsWhere(pg, func(s *PState) bool {
+			return !(retKey(s, 0) == "nil" && retHasType(s, 1, "ncg/revocation/result.InvalidChainError"))
+		})
+		c.noPathFrom(pg, rule+".1", name+": empty chain yields nothing else", "after the chain was found empty only (nil, InvalidChainError) is returned", empty, nonInv, nil)
+	} else if full := c.pgOfNI(v.fn, ocspCheckFn, crlCheckFn); full != nil {
+		// no test of its own: the chain validator (inlined here) must refuse the empty chain,
+		// and its failures are returned as (nil, error) below
+		ok2 := returnsWhere(full, func(s *PState) bool { return retNilErr(s, 1) })
+		c.mustPass(full, rule+".1", name+": empty chain is refused by the chain validator", "returning results", ok2, A("-Empty("+v.chain+")"))
+	}
 	vcFail := A("-IsNil(" + vc + ")")
 	failRets := returnsWhere(pg, func(s *PState) bool { return retKey(s, 0) == "nil" && retKey(s, 1) == vc })
 	c.floor(name+" chain-validation failure returns", 1, len(failRets))
@@ -33,7 +40,9 @@ func slotRules(c *Check, v *valTerms, name string) {
 		}})
 	workSrc := edgeSources(pg, work)
 	c.floor(name+" work edges", 3, len(workSrc))
-	c.mustPass(pg, rule+".1", name+": nothing before the chain is non-empty", "spawning, checking or storing a result", workSrc, A("-Empty("+v.chain+")"))
+	if len(edgeTargets(pg, empty)) > 0 {
+		c.mustPass(pg, rule+".1", name+": nothing before the chain is non-empty", "spawning, checking or storing a result", workSrc, A("-Empty("+v.chain+")"))
+	} // otherwise non-emptiness follows from the validated chain (next rule and the rule above)
 	c.mustPass(pg, rule+".1", name+": nothing before the chain validated for the purpose", "spawning, checking or storing a result", workSrc, A("+IsNil("+vc+")"))
 	c.mustPass(pg, rule+".1", name+": success only for a validated chain", "returning results", okRets, A("+IsNil("+vc+")"))
 	// .2 one slot per certificate
